@@ -117,6 +117,27 @@ impl<T> AsMut<T> for Object<T> {
     }
 }
 
+/// Accounts for a caller that is trying to get an [`Object`]: `available` is
+/// decremented up front, so that it becomes negative while callers are
+/// waiting, and incremented again unless the caller received an [`Object`].
+struct GetGuard<'a>(&'a AtomicIsize);
+
+impl<'a> GetGuard<'a> {
+    fn new(available: &'a AtomicIsize) -> Self {
+        let _ = available.fetch_sub(1, Ordering::Relaxed);
+        Self(available)
+    }
+    fn success(self) {
+        std::mem::forget(self)
+    }
+}
+
+impl Drop for GetGuard<'_> {
+    fn drop(&mut self) {
+        let _ = self.0.fetch_add(1, Ordering::Relaxed);
+    }
+}
+
 /// Generic object and connection pool. This is the static version of the pool
 /// which doesn't include.
 ///
@@ -189,6 +210,7 @@ impl<T> Pool<T> {
     /// See [`PoolError`] for details.
     pub fn try_get(&self) -> Result<Object<T>, PoolError> {
         let inner = self.inner.as_ref();
+        let guard = GetGuard::new(&inner.available);
         let permit = inner.semaphore.try_acquire().map_err(|e| match e {
             TryAcquireError::NoPermits => PoolError::Timeout,
             TryAcquireError::Closed => PoolError::Closed,
@@ -200,7 +222,7 @@ impl<T> Pool<T> {
             queue.pop().ok_or(PoolError::Closed)?
         };
         permit.forget();
-        let _ = inner.available.fetch_sub(1, Ordering::Relaxed);
+        guard.success();
         Ok(Object {
             pool: Arc::downgrade(&self.inner),
             obj: Some(obj),
@@ -215,6 +237,7 @@ impl<T> Pool<T> {
     /// See [`PoolError`] for details.
     pub async fn timeout_get(&self, timeout: Option<Duration>) -> Result<Object<T>, PoolError> {
         let inner = self.inner.as_ref();
+        let guard = GetGuard::new(&inner.available);
         let permit = match (timeout, inner.config.runtime) {
             (None, _) => inner
                 .semaphore
@@ -241,7 +264,7 @@ impl<T> Pool<T> {
             queue.pop().ok_or(PoolError::Closed)?
         };
         permit.forget();
-        let _ = inner.available.fetch_sub(1, Ordering::Relaxed);
+        guard.success();
         Ok(Object {
             pool: Arc::downgrade(&self.inner),
             obj: Some(obj),
